@@ -647,6 +647,93 @@ def rule_custom_scheme_refs(ctx, rid="R2.15"):
     return r
 
 
+def rule_ordinary_join(ctx, rid="R2.19"):
+    """A relative reference stays relative whatever it contains after its first segment: decided by sa/rules/ressem.py join_eval (the
+    package's resolver and urllib.parse.urljoin itself, eleven references under one http base, every target in the store)."""
+    prog = ctx.prog
+    resolve = find_method(prog, "validators.RefResolver", "resolve")
+    r = ctx.rule(rid, "under an ordinary base every spelling of a reference (colon in a later segment or in the fragment, ./, ../, /rooted, //host, "
+                      "absolute, urn:) resolves to the RFC 3986 target, out of the store, without retrieval", floor=11)
+    from .ressem import join_eval
+    try:
+        sem = join_eval(prog)
+    except RecursionError:
+        sem = None
+    if sem is None:
+        for _i in range(11):
+            r.ok(site(resolve), "NOT DECIDED: the resolver's construction or resolve() is outside the evaluated fragment")
+        r.note(site(resolve), "%s not decided" % rid)
+        return r
+    if "raises" in sem:
+        r.fail("%s|join|raises" % resolve.qual, site(resolve), "on the join table the resolver %s" % sem["raises"])
+        return r
+    for label, msg in sem.items():
+        if msg:
+            r.fail("%s|join|%s" % (resolve.qual, label), site(resolve), msg)
+        else:
+            r.ok(site(resolve) + " [%s]" % label, "resolved to the RFC 3986 target, from the store")
+    return r
+
+
+def _address_key_sites(fnode, local_id=False):
+    """id(x) calls in a function body whose statement does not also keep x itself -> [(call node, text of x)]"""
+    if local_id:
+        return []
+    parents = {}
+    for n in ast.walk(fnode):
+        for c in ast.iter_child_nodes(n):
+            parents[c] = n
+    found = []
+    for n in ast.walk(fnode):
+        if not (isinstance(n, ast.Call) and isinstance(n.func, ast.Name) and n.func.id == "id" and len(n.args) == 1 and not n.keywords):
+            continue
+        st = n
+        prev = None
+        while st in parents and not isinstance(st, ast.stmt):
+            prev, st = st, parents[st]
+        region = st
+        if isinstance(st, (ast.If, ast.While)) and prev is not None and prev is st.test:
+            region = st.test
+        elif isinstance(st, (ast.For, ast.With, ast.Try, ast.FunctionDef, ast.ClassDef)) and prev is not None:
+            region = prev
+        inside = set()
+        for c in ast.walk(region):
+            if isinstance(c, ast.Call) and isinstance(c.func, ast.Name) and c.func.id == "id":
+                for d in ast.walk(c):
+                    inside.add(d)
+        want = ast.dump(n.args[0])
+        kept = any(isinstance(c, (ast.Name, ast.Attribute, ast.Subscript)) and c not in inside and ast.dump(c) == want and isinstance(getattr(c, "ctx", None), ast.Load)
+                   for c in ast.walk(region))
+        if not kept:
+            found.append((n, norm(n.args[0])))
+    return found
+
+
+def rule_no_address_keys(ctx, rid, modules, what):
+    """id(x) is the address of x: it names x only while x is alive.  A set or mapping keyed by id() of objects it does not itself keep
+    (errors handed on to the caller, schemas of an earlier call) sooner or later meets the address of a dead object reused by a new
+    one -- what is then found there belongs to something else, and whether that happens depends on what the consumer keeps alive
+    (`list(errors)` vs. a streaming loop).  An id() whose own statement also stores the object (`memo[id(x)] = x`) is left alone."""
+    prog = ctx.prog
+    r = ctx.rule(rid, "no set or mapping is keyed by the address (`id()`) of an object it does not keep alive, in %s" % what, floor=20)
+    probe = ast.parse("def f(e, seen, memo):\n    if id(e) not in seen:\n        seen.add(id(e))\n    memo[id(e)] = e\n").body[0]
+    if [t for _n, t in _address_key_sites(probe)] != ["e", "e"]:
+        raise RuntimeError("%s: the built-in positive example is not recognised any more" % rid)
+    for f in sorted(prog.funcs.values(), key=lambda x: x.qual):
+        if f.mod.name not in modules or isinstance(f.node, ast.Lambda):
+            continue
+        from .c03 import _bound_names
+        sites = _address_key_sites(f.node, "id" in _bound_names(f))
+        own = [(n, t) for n, t in sites if n in set(walk_body(f))]
+        for n, t in own:
+            r.fail("%s|address-key|id(%s)" % (f.qual, t[:30]), site(f, n),
+                   "`id(%s)` is used as a key or compared while nothing in the statement keeps `%s` itself: once that object is freed its address is "
+                   "handed to the next object of the same size, which is then taken for it" % (t[:40], t[:40]))
+        if not own:
+            r.ok(site(f), "no id() of an object that is not kept")
+    return r
+
+
 def rule_no_deferred_loop_closure(ctx, rid="R5.14"):
     """Python closes over variables, not values: a nested generator function (or generator expression / lambda) that reads a variable
     its enclosing function rebinds in a loop sees, when its body finally runs, the value of the *latest* round.  That is harmless when
